@@ -41,7 +41,7 @@ static void check(ByteSource& in, CaseInfo& ci) {
   { bool powm = strncmp(op->name, "mpz_powm", 8) == 0; if (nvz > 0 && in.chance(powm ? 128 : 20)) { ci.label("mpz_operands_90_to_260_limbs");
       for (auto& x : zv) { size_t n = (size_t)in.range(90, 260); Limbs l = limbs_nz(in, n); if (in.flag()) l[0] |= 1; x = Int::from_limbs(l.data(), n, in.chance(60)); }
       if (strcmp(op->name, "mpz_powm") == 0 && vz[2] != vz[3]) zv[vz[2]] = gz(in, 2).abs(); } }
-  if (strcmp(op->name, "mpf_swap") != 0) for (auto& x : fv) if (x.prec > 64 && in.chance(60)) { x.rawlow = 64 * (unsigned)in.range(1, x.prec / 64 - 1); ci.label("mpf_operand_longer_than_prec_raw"); }
+  if (strcmp(op->name, "mpf_swap") != 0 && strncmp(op->name, "mpf_init", 8) != 0 /* these clear their destination, which the manual allows only at the original precision */) for (auto& x : fv) if (x.prec > 64 && in.chance(60)) { x.rawlow = 64 * (unsigned)in.range(1, x.prec / 64 - 1); ci.label("mpf_operand_longer_than_prec_raw"); }
   Args a0; a0.u[0] = in.pick({3, 2, 2}) == 0 ? in.u64() : in.flag() ? in.range(0, 300) : PALETTE[in.u8() & 7]; a0.u[1] = in.flag() ? in.range(0, 200) : in.u64(); a0.u[2] = in.flag() ? in.range(0, 40) : in.u64(); a0.s[0] = (int64_t)(in.flag() ? in.u64() : (uint64_t)in.srange(-300, 300)); a0.s[1] = 0;
   { uint64_t b = in.u64(); memcpy(&a0.d, &b, 8); if (!std::isfinite(a0.d)) a0.d = -2.75; } a0.base = (int)in.range(0, 255); a0.str = gen_string(in);
   uint64_t rseed = in.u64(); unsigned astate = in.pick({3, 2, 3}); bool shrink = astate == 0, roomy = astate == 2;
